@@ -11,17 +11,20 @@ import tempfile
 
 import apel
 import clirun
+import toprun
 import common
 import mainrun
 import pelbuild
 from common import Check, lean_batch
 
-TRUSTED = ['Lean 4.33.0 kernel (+ leanchecker in the thorough tier)',
+TRUSTED = ['harness/toprun.py (worlds materialised as real trees, the real peltool.main() run end to end in-process with nothing replaced, recursive snapshots, comparison with the driver op runmain = Pel.runMain of PelModel/Top.lean)',
+           'Lean 4.33.0 kernel (+ leanchecker in the thorough tier)',
            'axioms: propext, Classical.choice, Quot.sound only (audited per theorem)',
            'harness/c12.py (fault-injecting proxies for open / stdout / os.remove, comparison), Drv.lean protocol parsing',
            'harness/mainrun.py (the -f branch of the real main() with parseAndPrintPELFile replaced by a recorder returning a chosen Boolean)',
            'compiled driver peldrv agrees with the kernel reading of the same definitions']
-ASSUME = ['"completely written" means written and closed (--json) / printed and flushed (--file): the code does no fsync; durability '
+ASSUME = ['whole-command model: -o names the -p directory iff absent/empty or the same string; the -f file is not a top-level file of the -p directory; --json is composed in batch form (an output name equal to another input file name is outside the composition)',
+          '"completely written" means written and closed (--json) / printed and flushed (--file): the code does no fsync; durability '
           'across a kernel crash is outside any executable model of this code',
           'faults are injected at the Python I/O layer (open, write, flush, close raising OSError); /dev/full and a closed pipe confirm on the real OS',
           'a process death is a prefix of the event trace']
@@ -312,6 +315,8 @@ def run(tier, seed):
         shutil.rmtree(tmp, ignore_errors=True)
     # the -f branch of main(): os.remove(args.file) iff --clean and parseAndPrintPELFile returned True (PelModel/Main.lean: Action.afterPrint)
     mainrun.check_main(ck, tier, 'file')
+    # the WHOLE command end to end on real trees vs Pel.runMain (PelModel/Top.lean), and the command-level properties on the real runs
+    toprun.check_top(ck, tier, 'fileclean')
     return ck.finish(RULE, TRUSTED, ASSUME)
 
 
